@@ -1589,7 +1589,7 @@ def _is_min_len(ctx, n, A, B):
 
 def r056(P, u, E, cat, rep):
     fn = 'string_initializer'
-    rep.rule('R05.6', 'string_initializer reads the literal with the element width of the array for every element size that can reach it, stores min(array length, literal length) elements, or diagnoses', floor=5)
+    rep.rule('R05.6', 'string_initializer reads the literal with the element width of the array for every element size that can reach it, stores min(array length, literal length) elements, or diagnoses; initializer2 hands a string literal to it for arrays of character type and, by brace elision, to the first element of any other array', floor=7)
     it = TInterp(P, u, {'opaque': ['new_initializer', 'array_of'], 'loop_limit': 2, 'lazy_field': children_hook(), 'track_stores': True})
     sizes = {}
     for name, f in cat.entries():
@@ -1677,10 +1677,97 @@ def r056(P, u, E, cat, rep):
     missing = [s for s in sizes if s not in done]
     if missing:
         rep.undecided('R05.6', '%s:%s' % (U, fn), 'no path for element sizes %s' % missing)
-    # the caller sends every array + string literal here, whatever the element type
     f2 = u.fn('initializer2')
     if f2 is None or not f2.calls('string_initializer'):
         rep.undecided('R05.6', '%s:initializer2:string-dispatch' % U, 'initializer2 no longer calls string_initializer')
+        return
+    _r056_dispatch(P, u, E, cat, rep)
+
+
+CHAR_CATS = ('char', 'uchar', 'short', 'ushort', 'int', 'uint')      # char, char16_t, char32_t / wchar_t and their signed/unsigned twins
+ELIDE_CATS = ('ptr', 'struct', 'union', 'array')                     # element types a string literal can only reach through brace elision
+
+
+def _r056_dispatch(P, u, E, cat, rep):
+    """which arrays take a string literal as the initializer of the WHOLE array (C11 6.7.9p14/15: arrays of character type) and which
+    hand it, by brace elision (p20), to their first element (`char *names[2]`, `char lines[2][4]` as a member: `{ "ab", "cd", 1 }`)"""
+    fn = 'initializer2'
+    if 'TK_STR' not in E:
+        raise AnalysisBroken('enumerator TK_STR vanished')
+
+    def m_equal(it, ctx, n, a):
+        return 0          # a string literal token is neither `{` nor a designator
+
+    def m_assign(it, ctx, n, a):
+        node = Obj('Node', lazy=True, label='string-literal-expr')
+        _set_rest(it, ctx, a[0], 'tok-after-expr')
+        ctx.emit('assign', node, n.line)
+        return node
+
+    def h_sub(name):
+        def f(it, ctx, n, a):
+            _set_rest(it, ctx, a[0], 'tok-after-' + name)
+            ctx.emit('sub', name, a, n.line)
+            return None
+        return f
+    subs_of = ('string_initializer', 'array_initializer1', 'array_initializer2', 'struct_initializer1', 'struct_initializer2', 'union_initializer')
+    models = {'equal': m_equal, 'assign': m_assign}
+    models.update({nm: h_sub(nm) for nm in subs_of})
+    it = TInterp(P, u, {'models': models, 'cut': {'initializer2': h_sub('initializer2')}, 'opaque': ['add_type', 'consume', 'skip'],
+                        'lazy_field': children_hook(), 'track_stores': True})
+
+    def mk(ctx):
+        init = Obj('Initializer', lazy=True, label='init')
+        ty = Obj('Type', lazy=True, label='init.ty')
+        ty.fields['kind'] = E['TY_ARRAY']
+        ty.fields['base'] = type_cell(cat, 'init.ty.base', only=INT_CATS + ELIDE_CATS)
+        ty.fields['array_len'] = Sym('init.ty.array_len', 'int')
+        init.fields['ty'] = ty
+        tok = Obj('Token', lazy=True, label='tok')
+        tok.fields['kind'] = E['TK_STR']
+        ctx.root_init, ctx.root_tok = init, tok
+        ctx.slot = _Slot()
+        return [_Ref(ctx.slot), tok, init]
+    where = _w(u, fn)
+    n_el = n_ch = 0
+    for ctx, out in it.explore(fn, mk):
+        init, tok = ctx.root_init, ctx.root_tok
+        names = [n for n in cat_of(init.fields['ty'].fields['base']) if n]
+        el = [n for n in ELIDE_CATS if n in names]
+        chs = [n for n in CHAR_CATS if n in names]
+        subs = [e for e in ctx.events if e[0] == 'sub']
+        whole = [e for e in subs if e[1] == 'string_initializer']
+        if el:
+            n_el += 1
+            key = '%s:%s:string-literal/array-of-non-character-elements' % (U, fn)
+            what = '/'.join({'ptr': 'pointers', 'struct': 'structs', 'union': 'unions', 'array': 'arrays'}[n] for n in el)
+            if whole or out[0] != 'ret':
+                rep.ob('R05.6', key + ('/taken-as-initializer-of-the-whole-array' if whole else '/rejected'), False,
+                       ('a string literal given without braces for a sub-object that is an array of %s %s: only an array of character type is initialised as a whole by a string literal '
+                        '(C11 6.7.9p14/15); for any other array the literal initialises, by brace elision (p20), the FIRST ELEMENT. `struct { char n[2][4]; int k; } a = { "abc", "def", 1 };` '
+                        'stores garbage (the literal is read as 4-byte code units), `struct { char *names[2]; int k; } v = { "x", "y", 3 };` is rejected'
+                        % (what, 'is handed to string_initializer as the initializer of the whole array' if whole else 'ends in %s()' % out[1])),
+                       where='%s:%d' % (U, whole[0][3] if whole else out[3]), facts={'path': ctx.trail, 'element type classes': names})
+            else:
+                ok, msg, construct = True, '', 'initialises-first-element'
+                if len(subs) != 1 or subs[0][1] != 'array_initializer2':
+                    ok = False; construct = 'no-brace-elided-element-walk'
+                    msg = 'a string literal for an array of %s leads to %s, expected one brace-elided element walk (array_initializer2)' % (what, [e[1] for e in subs] or 'no nested parse')
+                else:
+                    a = subs[0][2]
+                    if len(a) < 4 or settle(it, a[1]) is not tok or settle(it, a[2]) is not init or not (isinstance(a[3], int) and a[3] == 0):
+                        ok = False; construct = 'element-walk-not-from-element-0-at-the-literal'
+                        msg = 'the brace-elided element walk for an array of %s does not start with element 0 at the string literal token' % what
+                rep.ob('R05.6', key + '/' + construct, ok, msg, where=where, facts={'path': ctx.trail})
+        if chs:
+            n_ch += 1
+            key = '%s:%s:string-literal/array-of-character-elements' % (U, fn)
+            good = out[0] == 'ret' and len(subs) == 1 and len(whole) == 1 and len(whole[0][2]) >= 3 and settle(it, whole[0][2][1]) is tok and settle(it, whole[0][2][2]) is init
+            rep.ob('R05.6', key + ('/string-initializer' if good else '/not-initialised-from-the-literal'), good,
+                   'an array of %s initialised by a string literal is not handed to string_initializer(rest, tok, init) (outcome %s, nested parses %s): `char s[] = "abc";` / `wchar_t w[] = L"abc";` '
+                   'do not store the code units of the literal' % ('/'.join(chs), out[0], [e[1] for e in subs]), where=where, facts={'path': ctx.trail})
+    if n_el == 0 or n_ch == 0:
+        rep.undecided('R05.6', '%s:%s:string-literal' % (U, fn), 'string dispatch of initializer2 not recognised (paths for non-character element types %d, for character types %d)' % (n_el, n_ch))
 
 
 # ------------------------------------------------------------------------------------------------
@@ -1705,9 +1792,16 @@ def _copy_interp(P, u, mk_expr_type):
             ctx.emit('sub', name, a, n.line)
             return None
         return f
+    base_hook = children_hook()
+
+    def hook(it, ctx, o, f, t):
+        src = o.meta.get('copy_of')
+        if src is not None and f != 'origin':
+            return it.read_field(src, f, t)       # copy_type(): `*ret = *ty`, every field but origin is the field of the original
+        return base_hook(it, ctx, o, f, t)
     return TInterp(P, u, {'models': {'equal': m_equal, 'assign': m_assign, 'struct_initializer2': h_sub('struct_initializer2')},
                           'cut': {'initializer2': h_sub('initializer2')}, 'opaque': ['add_type', 'consume', 'skip'],
-                          'lazy_field': children_hook(), 'track_stores': True})
+                          'lazy_field': hook, 'track_stores': True})
 
 
 def _mk_copy_args(E, kind, concrete_type):
@@ -1769,8 +1863,7 @@ def r051_copy(P, u, E, rep):
         def mk_alias(ctx):
             ty = ctx.root_init.fields['ty']
             t2 = Obj('Type', lazy=True, label='copy-of-init.ty')
-            for f in ('kind', 'members', 'size', 'align'):
-                t2.fields[f] = ty.fields[f]
+            t2.meta['copy_of'] = ty
             t2.fields['origin'] = ty
             return t2
         it = _copy_interp(P, u, mk_alias)
@@ -1805,14 +1898,21 @@ def r051_copy(P, u, E, rep):
             asg = [e for e in ctx.events if e[0] == 'assign']
             if not asg:
                 continue
-            k = settle(it, field(ctx.other_ty, 'kind')) if 'kind' in ctx.other_ty.fields else None
+            k = settle(it, ctx.other_ty.fields['kind']) if 'kind' in ctx.other_ty.fields else None
+            if isinstance(k, View):
+                cands = [k.proj(c) for c in k.cell.cands]
+                if len(cands) == 1:
+                    k = cands[0]
             if isinstance(k, int) and k == E[kind]:
                 cls = 'another-%s-type' % word
                 nsame += 1
             elif isinstance(k, int) and k in kind_name:
                 cls = 'type-kind-' + kind_name[k]
-            else:
+            elif isinstance(k, View) and E[kind] not in cands:
                 cls = 'non-%s-type' % word
+            else:
+                cls = 'another-type'        # the kind of the expression's type was not (or not decisively) consulted: includes another type of the same kind
+                nsame += 1
             key = '%s:%s:%s-object/expr-of-%s' % (U, fn, word, cls)
             n += 1
             if out[0] != 'ret':
@@ -1857,7 +1957,7 @@ def r051_copy(P, u, E, rep):
             rep.ob('R05.1', key + '/' + construct, ok, msg, where=where, facts={'path': ctx.trail})
         if n == 0 or nsame == 0:
             rep.undecided('R05.1', '%s:%s:%s-object/expr-of-other-type' % (U, fn, word),
-                          'no path on which the %s arm of initializer2 looks at an expression of another %s type (%d paths)' % (word, word, n))
+                          'no path on which the %s arm of initializer2 is given an expression of another %s type (%d paths)' % (word, word, n))
     return result
 
 
@@ -2230,6 +2330,11 @@ def _override_interp(P, u, E, equal_is=None, cut_designation=False):
 
     def m_assign(it, ctx, n, a):
         node = Obj('Node', lazy=True, label=ctx.fresh('assign-expr'))
+        ty0 = field(getattr(ctx, 'root_init', None), 'ty')
+        if isinstance(ty0, Obj):
+            # the expression may have the very type of the object (whatever test the parser uses to recognise that) or any other type
+            other = Obj('Type', lazy=True, label=ctx.fresh('type-of-assign-expr'))
+            node.fields['ty'] = View(Cell([ty0, other], ctx.fresh('assign-expr.ty')))
         _set_rest(it, ctx, a[0], 'tok-after-expr')
         ctx.emit('assign', node, n.line)
         return node
